@@ -39,7 +39,7 @@ m = {
          "kind_free_text": "Lean 4 model (GeoModel, import-free) + theorems (GeoProofs/Props) checked by lake build and a per-theorem #print axioms audit; hand-written model tied to /repo's working tree on every run by a Rust harness that runs the real code and a compiled Lean driver that evaluates the model in exact rational arithmetic on the same inputs; a translator regenerates the table-like fragment (DE-9IM masks) from the Rust source"},
     ],
     "checks": checks,
-    "notes": "See DESIGN.md. Known findings: known_findings.json. Seeded mutations: seeded/.",
+    "notes": "See DESIGN.md. Known findings: known_findings/*.json. Seeded mutations: seeded/.",
     "not_applicable": na,
 }
 json.dump(m, open(os.path.join(os.path.dirname(os.path.abspath(__file__)), "..", "MANIFEST.json"), "w"), indent=1)
